@@ -22,7 +22,9 @@ class Built:
                                 delays or getattr(spec, "delays", None))
         self.machine = create_machine(spec.config, logic=self.logic)
         self.defn = export_machine(self.machine, self.ctl, events=getattr(spec, "events", None),
-                                   intended_guards=intended_guards(spec.config))
+                                   intended_guards=intended_guards(spec.config),
+                                   service_kinds={k: v for k, v in (services or getattr(spec, "services", None) or {}).items()
+                                                  if isinstance(v, str)})
         self.ctx_keys = sorted(self.defn["ctx0"].keys())
 
 
